@@ -614,12 +614,16 @@ class ESME:
                     # A response that has been read is handled to the end, also when the session is
                     # torn down in the meantime: the correlator may already have matched it with its
                     # request, which would otherwise be lost without a trace. Nothing in the handling
-                    # of a response waits for the session
+                    # of a response itself waits for the session
                     handling: Task = asyncio.ensure_future(self._handle_pdu(pdu, header))
                     try:
                         smpp_message = await asyncio.shield(handling)
                     except CancelledError:
-                        await handling
+                        # Let the handling finish, but do not wait for the user's hooks for ever: they
+                        # may be waiting for something that only a running session provides
+                        _done, pending = await asyncio.wait({handling}, timeout=self.socket_timeout)
+                        for task in pending:
+                            task.cancel()
                         raise
 
                 if not smpp_message:
